@@ -67,7 +67,7 @@ Notation lex := (lex fdec).
 (** * The pending chunk is finished by anything that does not continue it *)
 
 Definition closed (ch : chunk) : bool :=
-  match ch with CId _ => true | CNum _ le => negb le end.
+  match ch with CId _ => true | CNum _ le => negb le | CCmt => false end.
 
 Lemma lex_flush : forall ch rest, closed ch = true -> bnd rest = true ->
   lex (Some ch) rest = flush fdec (Some ch) (lex None rest).
@@ -77,10 +77,10 @@ Proof.
   apply negb_true_iff in Hw. apply negb_true_iff in Hd.
   destruct (word_split c Hw) as [Hdg Hal].
   assert (E : extend (Some ch) c = None).
-  { destruct ch as [s|s le]; simpl; rewrite Hw; [reflexivity|].
+  { destruct ch as [s|s le|]; [| |discriminate Hc]; simpl; rewrite Hw; [reflexivity|].
     rewrite Hd. simpl in Hc. apply negb_true_iff in Hc. subst le. rewrite andb_false_r. reflexivity. }
   assert (E0 : extend None c = None) by (simpl; rewrite Hdg, Hal; reflexivity).
-  cbn [CLexer.lex]. rewrite E, E0. reflexivity.
+  cbn [CLexer.lex]. rewrite E, E0. destruct ch; [reflexivity|reflexivity|discriminate Hc].
 Qed.
 
 (** * Character-level steps (the lexer run on the concrete pieces of the printed text) *)
@@ -89,22 +89,22 @@ Lemma lexc_space : forall X, lex None (String " " X) = lex None X.
 Proof. reflexivity. Qed.
 
 Lemma lexc_2 : forall c d t X,
-  extend None c = None -> is_space c = false -> punct2 c d = Some t ->
+  extend None c = None -> is_space c = false -> is_slash c = false -> punct2 c d = Some t ->
   lex None (String c (String d X)) = prep [t] (lex None X).
-Proof. intros c d t X E S P. cbn [CLexer.lex]. rewrite E, S, P. reflexivity. Qed.
+Proof. intros c d t X E S L P. cbn [CLexer.lex]. rewrite E, S, L, P. reflexivity. Qed.
 
 Lemma lexc_1' : forall c d t X,
-  extend None c = None -> is_space c = false -> punct2 c d = None -> punct1 c = Some t ->
+  extend None c = None -> is_space c = false -> is_slash c = false -> punct2 c d = None -> punct1 c = Some t ->
   lex None (String c (String d X)) = prep [t] (lex None (String d X)).
-Proof. intros c d t X E S P Q. cbn [CLexer.lex]. rewrite E, S, P, Q. reflexivity. Qed.
+Proof. intros c d t X E S L P Q. cbn [CLexer.lex]. rewrite E, S, L, P, Q. reflexivity. Qed.
 
 Lemma lexc_1 : forall c t X,
-  extend None c = None -> is_space c = false -> starts2 c = false -> punct1 c = Some t ->
+  extend None c = None -> is_space c = false -> is_slash c = false -> starts2 c = false -> punct1 c = Some t ->
   lex None (String c X) = prep [t] (lex None X).
 Proof.
-  intros c t X E S P Q. destruct X as [|d X]; cbn [CLexer.lex]; rewrite E, S.
+  intros c t X E S L P Q. destruct X as [|d X]; cbn [CLexer.lex]; rewrite E, S.
   - rewrite Q. reflexivity.
-  - unfold punct2. rewrite P. cbn [negb]. rewrite Q. reflexivity.
+  - rewrite L. unfold punct2. rewrite P. cbn [negb andb]. rewrite Q. reflexivity.
 Qed.
 
 Lemma lexc_id_start : forall c Y, is_alpha_ c = true ->
@@ -486,6 +486,95 @@ Proof.
     pose proof (gen_cprint_lex e Hn) as IHe.
     cbn [ir_to_c_statement cprint_stmt option_map map]. do 3 f_equal. close.
 Qed.
+
+
+(** * Lines (round 2): every printed line, in continuation form
+
+    A one-line statement ends in [;], a header line in [{]: whatever follows, the line lexes to its
+    tokens followed by the tokens of the rest. *)
+
+Ltac closeK :=
+  norm; run; rewrite ?(lex_ident fdec) by assumption; run; finish.
+
+Theorem gen_stmt_line : forall s, stmt_names_ok s = true -> is_layout s = false ->
+  match ir_to_c_statement str_float s, cprint_stmt s with
+  | Some [line], Some ts => forall rest, lex None (line ++ rest)%string = prep ts (lex None rest)
+  | None, None => True
+  | _, _ => False
+  end.
+Proof.
+  intros s Hn Hl.
+  destruct s as [name type|target value|dtarget value|? ?|? ? ?|? ?|value|e]; try discriminate Hl;
+    cbn [stmt_names_ok] in Hn.
+  - (* Declaration *)
+    cbn [ir_to_c_statement cprint_stmt].
+    destruct (ir_to_c_declaration (Declaration name type)) as [x|] eqn:E1,
+             (cprint_declaration (Declaration name type)) as [ts|] eqn:E2;
+      pose proof (gen_declaration_lex (Declaration name type)) as D; rewrite E1, E2 in D;
+      try (exact (D "" Hn eq_refl)).
+    intros rest. specialize (D (String ";" rest) Hn eq_refl). rewrite sapp_assoc. cbn [append].
+    rewrite D. closeK.
+  - (* Assignment *)
+    apply andb_true_iff in Hn. destruct Hn as [Ht Hv].
+    pose proof (gen_cprint_lex target Ht) as IHt.
+    pose proof (gen_cprint_lex value Hv) as IHv.
+    destruct value; cbn [names_ok] in Hv;
+      repeat match goal with
+             | H : _ && _ = true |- _ => apply andb_true_iff in H; destruct H
+             end;
+      repeat match goal with
+             | H : names_ok ?x = true |- _ =>
+                 lazymatch goal with
+                 | _ : lexes_to x |- _ => fail
+                 | _ => pose proof (gen_cprint_lex x H)
+                 end
+             end;
+      cbn [ir_to_c_statement cprint_stmt cprint_assignment];
+      rewrite ?(expr_eqb_sym target), ?(expr_eqb_sym (IntegerLiteral 1));
+      repeat match goal with |- context [if ?B then _ else _] => destruct B end;
+      first [ solve [intros rest; closeK]
+            | match goal with
+              | |- ?G => fail 1000 "the regenerated ir_to_c_assignment differs from cprint_assignment; stuck at:" G
+              end ].
+  - (* DeclarationAssignment *)
+    apply andb_true_iff in Hn. destruct Hn as [Hd Hv].
+    pose proof (gen_cprint_lex value Hv) as IHv.
+    cbn [ir_to_c_statement cprint_stmt].
+    destruct (ir_to_c_declaration dtarget) as [x|] eqn:E1, (cprint_declaration dtarget) as [ts|] eqn:E2;
+      pose proof (gen_declaration_lex dtarget) as D; rewrite E1, E2 in D;
+      try (exact (D "" Hd eq_refl)).
+    intros rest.
+    specialize (D (" = " ++ ir_to_c_expression str_float value ++ ";" ++ rest)%string Hd eq_refl).
+    rewrite ?sapp_assoc in *. rewrite D. closeK.
+  - (* Return *)
+    pose proof (gen_cprint_lex value Hn) as IHv.
+    cbn [ir_to_c_statement cprint_stmt]. intros rest. closeK.
+  - (* expression statement *)
+    pose proof (gen_cprint_lex e Hn) as IHe.
+    cbn [ir_to_c_statement cprint_stmt]. intros rest. closeK.
+Qed.
+
+Lemma lex_if_line : forall c, names_ok c = true -> forall rest,
+  lex None (("if (" ++ gen c ++ ") {") ++ rest)%string
+  = prep (TId "if" :: TLParen :: cprint c ++ [TRParen; TId "{"]) (lex None rest).
+Proof. intros c H rest. pose proof (gen_cprint_lex c H) as IH. closeK. Qed.
+
+Lemma lex_while_line : forall c, names_ok c = true -> forall rest,
+  lex None (("while (" ++ gen c ++ ") {") ++ rest)%string
+  = prep (TId "while" :: TLParen :: cprint c ++ [TRParen; TId "{"]) (lex None rest).
+Proof. intros c H rest. pose proof (gen_cprint_lex c H) as IH. closeK. Qed.
+
+Lemma lex_close_line : forall rest, lex None ("}" ++ rest)%string = prep [TId "}"] (lex None rest).
+Proof. intros rest. closeK. Qed.
+
+Lemma lex_else_line : forall rest,
+  lex None ("} else {" ++ rest)%string = prep [TId "}"; TId "else"; TId "{"] (lex None rest).
+Proof. intros rest. closeK. Qed.
+
+Lemma lex_else_if_prefix : forall X,
+  lex None ("} else " ++ X)%string = prep [TId "}"; TId "else"] (lex None X).
+Proof. intros X. closeK. Qed.
+
 
 End Main.
 
